@@ -39,6 +39,11 @@ func Check_Exporter() {
 	proto := []string{"tcp", "udp"}[sx.Choose("protocol", 2)]
 	hasTLS := sx.Choose("tlsConfigured", 2) == 1
 	in := exporter.ExporterInput{CollectorAddress: "192.0.2.1:4739", CollectorProtocol: proto, ObservationDomainID: 1}
+	in.IsIPv6 = sx.Choose("isIPv6", 2) == 1
+	in.SendJSONRecord = sx.Choose("sendJSON", 2) == 1
+	if in.IsIPv6 {
+		in.CollectorAddress = "[2001:db8::1]:4739"
+	}
 	var serverName string
 	hasCert := false
 	if hasTLS {
@@ -54,12 +59,12 @@ func Check_Exporter() {
 	nTLS, nDTLS, nPlain := sx.StubCount(fnTLSDial), sx.StubCount(fnDTLSDial), sx.StubCount(fnNetDial)
 	if !hasTLS {
 		sx.Assert(nTLS == 0 && nDTLS == 0, "tls-used-without-configuration")
-		sx.Assert(nPlain == 1 && err == nil && ep != nil, "plaintext-exporter")
+		sx.Assert(nPlain+sx.StubCount("net.DialTCP")+sx.StubCount("net.DialUDP")+sx.StubCount("net.DialTimeout") == 1 && err == nil && ep != nil, "plaintext-exporter")
 		sx.Reach("plaintext")
 		return
 	}
 	// security settings present: never an unencrypted session
-	sx.Assert(nPlain == 0, "plaintext-dial-although-tls-is-configured")
+	sx.Assert(nPlain == 0 && sx.StubCount("net.DialTCP") == 0 && sx.StubCount("net.DialUDP") == 0 && sx.StubCount("net.DialTimeout") == 0, "plaintext-dial-although-tls-is-configured")
 	if err != nil {
 		sx.Assert(ep == nil, "process-returned-with-error")
 		sx.Assert(nTLS == 0 && nDTLS == 0, "dialled-although-configuration-failed")
